@@ -220,6 +220,10 @@ MCNext == IF hist = <<>> /\ now = 0 THEN (\E s \in Strays : Start(s))
           ELSE Step
 MCSpec == MCInit /\ [][MCNext]_allvars
 
+(* Design-level reading of the phase machine (run with Enforce = {}, cfg PodEni_design.cfg): the letter of C10.   *)
+(* TLC answers with the D10 history (Unbind -> Detaching by a further reconcile of the vanished pod).               *)
+StrictEdges == [][\A n \in Names : pe[n].ex => Eff(pe[n]) = Eff(pe'[n]) \/ <<Eff(pe[n]), Eff(pe'[n])>> \in Documented]_pe
+
 (* what the exhaustive run checks on top of the guards *)
 FramesSane == \A i \in 1..Len(stk) : call[stk[i].c].open /\ call[stk[i].c].who = stk[i].who
 =============================================================================
